@@ -17,7 +17,11 @@ import (
 
 // verifHandshake drives the simple handshake through the library API in both roles over the
 // segmented transports and checks the byte counts and echoes.
-func verifHandshake(m *mon.M, r *vrand.Rand, ca, cb *vnet.Duplex, ab, ba *vnet.Queue, rep interface{}) bool {
+//
+// afterS2 / afterC2 (may be nil) run right after the server wrote S0+S1+S2 resp. the client wrote C2, i.e. before the
+// peer has read its handshake bytes: whatever they write (the first chunks of the session, as a client that
+// pipelines connect() behind C2 does) must still be in the queue, untouched, when the handshake is over.
+func verifHandshake(m *mon.M, r *vrand.Rand, ca, cb *vnet.Duplex, ab, ba *vnet.Queue, rep interface{}, afterS2, afterC2 func() bool) bool {
 	hc := NewHandshake(rand.New(rand.NewSource(int64(r.Uint64() >> 1))))
 	hs := NewHandshake(rand.New(rand.NewSource(int64(r.Uint64() >> 1))))
 	fail := func(step string, err error) bool {
@@ -53,6 +57,10 @@ func verifHandshake(m *mon.M, r *vrand.Rand, ca, cb *vnet.Duplex, ab, ba *vnet.Q
 	if ba.Written != 1+1536+1536 {
 		return fail("s0s1s2-bytes", fmt.Errorf("server wrote %d bytes", ba.Written))
 	}
+	if afterS2 != nil && !afterS2() {
+		return false
+	}
+	earlyBA := ba.Written - (1 + 1536 + 1536)
 	s0, err := hc.ReadC0S0(ca)
 	if err != nil || len(s0) != 1 || s0[0] != 3 {
 		return fail("read-s0", fmt.Errorf("s0=%x err=%v", s0, err))
@@ -68,12 +76,22 @@ func verifHandshake(m *mon.M, r *vrand.Rand, ca, cb *vnet.Duplex, ab, ba *vnet.Q
 	if err := hc.WriteC2S2(ca, s1); err != nil {
 		return fail("write-c2", err)
 	}
+	if ab.Written != 1+1536+1536 {
+		return fail("c0c1c2-bytes", fmt.Errorf("client wrote %d bytes", ab.Written))
+	}
+	if afterC2 != nil && !afterC2() {
+		return false
+	}
+	earlyAB := ab.Written - (1 + 1536 + 1536)
 	c2, err := hs.ReadC2S2(cb)
 	if err != nil || !bytes.Equal(c2, s1) {
 		return fail("read-c2", fmt.Errorf("c2 is not the echo of s1 (err=%v)", err))
 	}
-	if ab.Written != 1+1536+1536 || ab.Len() != 0 || ba.Len() != 0 {
-		return fail("bytes", fmt.Errorf("client wrote %d, leftovers %d/%d", ab.Written, ab.Len(), ba.Len()))
+	if int64(ab.Len()) != earlyAB || int64(ba.Len()) != earlyBA {
+		return fail("consumed-session-bytes", fmt.Errorf("after the handshake %d/%d bytes are left in the queues, %d/%d bytes of session data were written behind C2/S2", ab.Len(), ba.Len(), earlyAB, earlyBA))
+	}
+	if earlyAB+earlyBA > 0 {
+		m.Count("handshakes_with_pipelined_session_data", 1)
 	}
 	if ab.EmptyReads+ba.EmptyReads != 0 {
 		return fail("overread", fmt.Errorf("handshake read past what was written"))
@@ -83,11 +101,12 @@ func verifHandshake(m *mon.M, r *vrand.Rand, ca, cb *vnet.Duplex, ab, ba *vnet.Q
 }
 
 type verifDir struct {
-	w, rd     *Protocol
-	q         *vnet.Queue
-	chunk     uint32 // chunk size in effect for this direction (as announced by the writer)
-	pending   []verifMsg
-	delivered int
+	w, rd       *Protocol
+	q           *vnet.Queue
+	chunk       uint32 // chunk size in effect for this direction (as announced by the writer)
+	pending     []verifMsg
+	delivered   int
+	lastWritten *Message
 }
 
 // One deterministic, single-threaded session.
@@ -107,11 +126,30 @@ func verifC01Session(m *mon.M, i int, big bool) {
 	m.Case()
 	var trace []string
 	m.Guard("rtmp.session", nil, func() {
-		if !verifHandshake(m, r, ca, cb, ab, ba, rep) {
-			return
-		}
 		pa, pb := NewProtocol(ca), NewProtocol(cb)
 		dirs := [2]*verifDir{{w: pa, rd: pb, q: ab, chunk: 128}, {w: pb, rd: pa, q: ba, chunk: 128}}
+		// every message object handed out by ReadMessage is kept, with what it must contain, until the session ends
+		type kept struct {
+			got  *Message
+			want verifMsg
+			di   int
+			seq  int
+		}
+		var retained []kept
+		var writeOp func(di, op int) bool
+		early := func(di int) func() bool {
+			if !r.Chance(1, 3) {
+				return nil
+			}
+			return func() bool {
+				for k := r.Range(1, 2); k > 0; k-- {
+					if !writeOp(di, -1) {
+						return false
+					}
+				}
+				return true
+			}
+		}
 		// optional relay of direction 0: B re-writes what it read to a third endpoint C
 		var relayW, relayR *Protocol
 		var relayQ *vnet.Queue
@@ -137,6 +175,7 @@ func verifC01Session(m *mon.M, i int, big bool) {
 					m.Violationf(sig, rep, "dir %d message #%d: wrote %v read %v: %s; trace=%v", di, d.delivered, want, g, why, trace)
 					return false
 				}
+				retained = append(retained, kept{got, want, di, d.delivered})
 				d.delivered++
 				m.Case() // one evaluation per message read back (plus one per session)
 				m.Count("messages_read_back", 1)
@@ -161,8 +200,7 @@ func verifC01Session(m *mon.M, i int, big bool) {
 			}
 			return true
 		}
-		for op := 0; op < nops; op++ {
-			di := r.Intn(2)
+		writeOp = func(di, op int) bool {
 			d := dirs[di]
 			if r.Chance(1, 4) || (op == 0 && r.Chance(1, 3)) {
 				// Set Chunk Size announced by the writer of this direction
@@ -171,7 +209,7 @@ func verifC01Session(m *mon.M, i int, big bool) {
 				pkt.ChunkSize = v
 				if err := d.w.WritePacket(pkt, 0); err != nil {
 					m.Violationf("c01:write-error", rep, "WritePacket(SetChunkSize %d): %v", v, err)
-					return
+					return false
 				}
 				b := make([]byte, 4)
 				binary.BigEndian.PutUint32(b, v)
@@ -193,12 +231,35 @@ func verifC01Session(m *mon.M, i int, big bool) {
 					lm.MessageType, lm.Timestamp, lm.Payload = MessageType(vm.Type), vm.Timestamp, vm.Payload
 					m.Count("messages_built_with_NewStreamMessage", 1)
 				}
+				if prev := d.lastWritten; prev != nil && !big && r.Chance(1, 4) {
+					// one message object reused for the next frame, as an application with a per-connection scratch
+					// message does: fields are set one by one; half of the time the new payload has the old one's length
+					if r.Bool() && (vm.Type < 1 || vm.Type > 6) {
+						vm.Payload = r.Shaped(len(prev.Payload))
+					}
+					prev.MessageType, prev.streamID, prev.Timestamp, prev.betterCid, prev.Payload = MessageType(vm.Type), vm.StreamID, vm.Timestamp, chunkID(vm.Cid), vm.Payload
+					lm = prev
+					m.Count("messages_written_through_a_reused_object", 1)
+				}
+				d.lastWritten = lm
 				if err := d.w.WriteMessage(lm); err != nil {
 					m.Violationf("c01:write-error", rep, "WriteMessage(%v): %v", vm, err)
-					return
+					return false
 				}
 				d.pending = append(d.pending, vm)
 				trace = append(trace, fmt.Sprintf("d%d:%v@cs%d", di, vm, d.chunk))
+			}
+			return true
+		}
+		// the handshake, with (PRNG) the first chunks of either side already queued behind S2 / C2
+		if !verifHandshake(m, r, ca, cb, ab, ba, rep, early(1), early(0)) {
+			return
+		}
+		for op := 0; op < nops; op++ {
+			di := r.Intn(2)
+			d := dirs[di]
+			if !writeOp(di, op) {
+				return
 			}
 			// history dimension: read immediately, or let messages pile up and read in a batch
 			if r.Chance(2, 3) {
@@ -218,6 +279,14 @@ func verifC01Session(m *mon.M, i int, big bool) {
 				m.Violationf("c01:reader-needs-more-bytes", rep, "dir %d: reader asked for bytes that were never written; trace=%v", di, trace)
 			}
 		}
+		// an application may keep what ReadMessage returned (a GOP cache does): later reads must not have changed it
+		for _, k := range retained {
+			if ok, why := verifSame(k.want, verifFromLib(k.got)); !ok {
+				m.Violationf("c01:earlier-message-overwritten", rep, "dir %d message #%d was read back correctly, but after later reads the same *Message holds %v: %s; trace=%v", k.di, k.seq, verifFromLib(k.got), why, trace)
+				break
+			}
+		}
+		m.Count("messages_rechecked_at_session_end", int64(len(retained)))
 		if relayQ != nil && relayQ.Len() != 0 {
 			m.Violationf("c01:surplus-bytes:relay", rep, "%d relay bytes left", relayQ.Len())
 		}
@@ -265,6 +334,9 @@ func TestVerif_C01_Session(t *testing.T) {
 	m.Require("messages_read_back", int64(n*2))
 	m.Require("set_chunk_size_announced", int64(n/4))
 	m.Require("handshakes", int64(n))
+	m.Require("handshakes_with_pipelined_session_data", int64(n/8))
+	m.Require("messages_written_through_a_reused_object", int64(n/4))
+	m.Require("messages_rechecked_at_session_end", int64(n*2))
 	m.Require("messages_relayed", int64(n/8))
 	mon.Parallel(n+nbig, func(w, i int) { verifC01Session(m, i, i >= n) })
 }
